@@ -1,0 +1,131 @@
+// SPDX-License-Identifier: Apache-2.0
+
+//! Verification hooks (cargo feature `verif-hooks`).
+//!
+//! Nothing in here changes the behaviour of the crate: `hold()` is a no-op unless a controller has
+//! been registered, and the remaining items only re-export crate-private functionality so that an
+//! external harness can observe it.
+
+use std::fs::File;
+use std::os::unix::io::RawFd;
+use std::os::unix::net::UnixStream;
+use std::sync::{Arc, RwLock};
+
+use vm_memory::ByteValued;
+
+use super::connection::Endpoint;
+use super::gpu_message::{GpuBackendReq, VhostUserGpuMsgHeader};
+use super::message::*;
+use super::Result;
+
+/// Signature of a hold-point controller: `(point name, context value)`.
+pub type Controller = Arc<dyn Fn(&'static str, u64) + Send + Sync>;
+
+static CONTROLLER: RwLock<Option<Controller>> = RwLock::new(None);
+
+/// Register (or clear) the hold-point controller.
+pub fn set_controller(c: Option<Controller>) {
+    *CONTROLLER.write().unwrap() = c;
+}
+
+/// Hold point: calls the registered controller, if any.
+pub fn hold(point: &'static str, ctx: u64) {
+    let c = CONTROLLER.read().unwrap().clone();
+    if let Some(c) = c {
+        c(point, ctx);
+    }
+}
+
+fn hdr_from<H: ByteValued + Default>(bytes: &[u8; 12]) -> H {
+    let mut h = H::default();
+    h.as_mut_slice().copy_from_slice(bytes);
+    h
+}
+
+/// `is_valid()` of the frontend-channel message header with these 12 bytes.
+pub fn frontend_header_is_valid(bytes: &[u8; 12]) -> bool {
+    hdr_from::<VhostUserMsgHeader<FrontendReq>>(bytes).is_valid()
+}
+
+/// `is_valid()` of the backend-channel message header with these 12 bytes.
+pub fn backend_header_is_valid(bytes: &[u8; 12]) -> bool {
+    hdr_from::<VhostUserMsgHeader<BackendReq>>(bytes).is_valid()
+}
+
+/// `is_valid()` of the GPU-channel message header with these 12 bytes.
+pub fn gpu_header_is_valid(bytes: &[u8; 12]) -> bool {
+    hdr_from::<VhostUserGpuMsgHeader<GpuBackendReq>>(bytes).is_valid()
+}
+
+/// Bytes of `VhostUserMsgHeader::<FrontendReq>::new(code, flags, size)`; `None` for an unknown code.
+pub fn frontend_header_new(code: u32, flags: u32, size: u32) -> Option<[u8; 12]> {
+    let c = FrontendReq::try_from(code).ok()?;
+    let h = VhostUserMsgHeader::new(c, flags, size);
+    let mut out = [0u8; 12];
+    out.copy_from_slice(h.as_slice());
+    Some(out)
+}
+
+/// `reply.is_reply_for(req)` on frontend-channel headers.
+pub fn frontend_header_is_reply_for(reply: &[u8; 12], req: &[u8; 12]) -> bool {
+    hdr_from::<VhostUserMsgHeader<FrontendReq>>(reply)
+        .is_reply_for(&hdr_from::<VhostUserMsgHeader<FrontendReq>>(req))
+}
+
+/// The crate-private socket endpoint (frontend-channel header type), for framing checks.
+pub struct RawEndpoint(Endpoint<VhostUserMsgHeader<FrontendReq>>);
+
+impl RawEndpoint {
+    /// Wrap a connected stream.
+    pub fn from_stream(sock: UnixStream) -> Self {
+        RawEndpoint(Endpoint::from_stream(sock))
+    }
+
+    /// `Endpoint::send_iovec_all`.
+    pub fn send_iovec_all(&mut self, iovs: &[&[u8]], fds: Option<&[RawFd]>) -> Result<usize> {
+        self.0.send_iovec_all(iovs, fds)
+    }
+
+    /// `Endpoint::recv_header`, returning the raw header bytes.
+    pub fn recv_header(&mut self) -> Result<([u8; 12], Option<Vec<File>>)> {
+        let (h, f) = self.0.recv_header()?;
+        let mut out = [0u8; 12];
+        out.copy_from_slice(h.as_slice());
+        Ok((out, f))
+    }
+
+    /// `Endpoint::recv_data`.
+    pub fn recv_data(&mut self, len: usize) -> Result<(usize, Vec<u8>)> {
+        self.0.recv_data(len)
+    }
+
+    /// `Endpoint::recv_body::<VhostUserU64>`.
+    pub fn recv_body_u64(&mut self) -> Result<([u8; 12], u64, Option<Vec<File>>)> {
+        let (h, b, f) = self.0.recv_body::<VhostUserU64>()?;
+        let mut out = [0u8; 12];
+        out.copy_from_slice(h.as_slice());
+        Ok((out, b.value, f))
+    }
+
+    /// `Endpoint::recv_body_into_buf`.
+    pub fn recv_body_into_buf(
+        &mut self,
+        buf: &mut [u8],
+    ) -> Result<([u8; 12], usize, Option<Vec<File>>)> {
+        let (h, n, f) = self.0.recv_body_into_buf(buf)?;
+        let mut out = [0u8; 12];
+        out.copy_from_slice(h.as_slice());
+        Ok((out, n, f))
+    }
+
+    /// `Endpoint::recv_payload_into_buf::<VhostUserConfig>`.
+    pub fn recv_config_payload_into_buf(
+        &mut self,
+        buf: &mut [u8],
+    ) -> Result<([u8; 12], VhostUserConfig, usize, Option<Vec<File>>)> {
+        let (h, b, n, f) = self.0.recv_payload_into_buf::<VhostUserConfig>(buf)?;
+        let mut out = [0u8; 12];
+        out.copy_from_slice(h.as_slice());
+        Ok((out, b, n, f))
+    }
+}
